@@ -46,6 +46,24 @@ func (h *simHook) Unlocked(m unsafe.Pointer) {
 }
 
 //go:norace
+func (h *simHook) RLock(m unsafe.Pointer, name string, try func() bool) {
+	if !h.s.Active() {
+		for !try() {
+		}
+		return
+	}
+	h.s.RLock(uintptr(m), name, try)
+}
+
+//go:norace
+func (h *simHook) RUnlocked(m unsafe.Pointer) {
+	if !h.s.Active() {
+		return
+	}
+	h.s.RUnlocked(uintptr(m), "")
+}
+
+//go:norace
 func (h *simHook) Access(id int, addr func() unsafe.Pointer, write bool, site string) {
 	if !h.s.Active() {
 		return
